@@ -35,6 +35,10 @@ CHECKS = {
              text='For every integer width up to 128 bits (full width), bool, ASCII char, f32/f64 incl. all NaN payloads, and strings <= 4 bytes the solver decides Any::new(v).deserialize_into::<T>() == v and that Serialize for Any emits exactly the event v itself emits; JSON number/bool events pushed through AnyVisitor re-serialize to the identical event. Counterexamples replayed natively.',
              note='Trusted: mirsym; serde primitive impls by contract (incl. the default deserialize_i128/u128 = not supported unless overridden). Outside: sequences/maps/structs/variants inside Any, Base64 coercion, deeper trees.',
              ref='§5 C13'),
+ 'C01': dict(engine='K+M', technique='Kani/CBMC on the compiled conjure-serde wrappers + real serde_json writer over full-width symbolic non-finite doubles; MIR symbolic execution (z3 floating point) of every JSON/Smile value and key Behavior leaf and of the JSON client float/bool key visitors',
+             text='K: json::to_vec of a symbolic non-finite f64/f32 (value, Some, struct field) and of a bool map key yields exactly the Conjure spelling bytes, for every NaN payload and sign. M: each overridden Behavior leaf (serialize_f32/f64/bool of json/smile value and key behaviours) run from MIR against an event recorder emits "NaN"/"Infinity"/"-Infinity" exactly for the three classes and the untouched number otherwise (keys as strings); the JSON client value/key visitors turn exactly those spellings (all strings <= 9 bytes) back into the three classes and bool keys from "true"/"false". Round trip = these two halves + event transport by serde_json/serde_smile (assumed).',
+             note='Trusted: Kani/CBMC; mirsym + recorder/event-player models of the inner (de)serializers. Outside: Override re-wrapping at depth > 1 (one level is executed in C05/C13), Base64 of binary, finite-float text.',
+             ref='§5 C01'),
  'C05': dict(engine='M', technique='symbolic execution of the whole conjure-serde unknown-field wrapper chain from MIR (31 repository functions incl. fn-local Delegator types) over symbolic object documents; z3 decides reject-and-name (server) / accept-and-drop (client)',
              text='JSON and Smile, server and client deserialize_struct entry points are executed from MIR down through Override, UnknownFieldsBehavior, StructVisitor/StructMapAccess, Key/ValueDeserializeSeed, WrappingDeserializer, DelegatingDeserializer/Visitor with an event-playing inner deserializer and a derive-like client visitor; documents have <= 2 members with keys from the declared fields (0, 1 or 2 of them) plus one undeclared key in every order. Server: Err(unknown_field(key)) naming exactly the injected key iff it occurs; client: always Ok with exactly the declared members. Counterexamples replayed on the real deserializers.',
              note='Trusted: mirsym; models of the inner serde_json/serde_smile event stream and of a serde-derive struct visitor. One nesting level is decided exhaustively; deeper nesting re-enters the same wrappers (C01).',
